@@ -49,7 +49,7 @@ def replay(path, prop):
             return 1 if rej else 0
     # states of the generator machines: the replay file holds the state with the model's expectations; re-execute it
     state_replays = {'bitstr': ('c14', 'bitstr_replay'), 'oid': ('c14', 'oid_replay'), 'char': ('c14', 'char_replay'),
-                     'named': ('c14', 'named_replay'), 'real': ('c14', 'real_replay'), 'tags': ('c13', 'replay_state'), 'namedtypes': ('c09', 'check_state')}
+                     'named': ('c14', 'named_replay'), 'real': ('c14', 'real_replay'), 'scalar': ('c14', 'scalar_replay'), 'tags': ('c13', 'replay_state'), 'namedtypes': ('c09', 'check_state')}
     if kind in state_replays:
         import importlib
         mod, fn = state_replays[kind]
